@@ -56,14 +56,13 @@ INDUCTIVE = ["EstablishedByCreate", "PreservedByClaim", "PreservedByTopUp", "Pre
 VACUITY = ["Vacuity_TopUpWithoutInvariant", "Vacuity_ClaimPaysNothing"]
 
 
-def inductive(specdir, scr):
-    """Apalache, unbounded integers: the invariant IndInv (Sustained + well-formedness) of mc/ArithInductive.tla is
-    established by create and preserved by every operation and by the passing of time; each release conserves coins.
-    The two vacuity probes must be violated."""
+def obligations(specdir, scr, module, prove, refute):
+    """Apalache, unbounded integers, one run per obligation in parallel (--length=0: invariants of the symbolic initial
+    states).  Every `prove` obligation must hold, every `refute` one (vacuity probe) must have a counterexample."""
     jobs = []
-    for q in INDUCTIVE + VACUITY:
+    for q in prove + refute:
         out = scr.sub("ind-" + q)
-        cmd = ["timeout", "600", "apalache-mc", "check", "--length=0", "--inv=" + q, "--out-dir=" + out, "ArithInductive.tla"]
+        cmd = ["timeout", "600", "apalache-mc", "check", "--length=0", "--inv=" + q, "--out-dir=" + out, module]
         jobs.append((q, out, subprocess.Popen(cmd, cwd=specdir, stdout=subprocess.PIPE, stderr=subprocess.STDOUT, text=True)))
     res = {}
     for q, out, p in jobs:
@@ -71,11 +70,27 @@ def inductive(specdir, scr):
         shutil.rmtree(out, ignore_errors=True)
         proved, refuted = "EXITCODE: OK" in o, "EXITCODE: ERROR (12)" in o
         if not (proved or refuted):
-            raise Inconclusive("apalache failed on ArithInductive %s:\n%s" % (q, o[-3000:]))
-        if (q in INDUCTIVE and not proved) or (q in VACUITY and not refuted):
-            raise Inconclusive("ArithInductive: %s %s (model error in StreamArith.tla, not a verdict on the code)" % (q, "has a counterexample" if q in INDUCTIVE else "is not violated: vacuous check"))
+            raise Inconclusive("apalache failed on %s %s:\n%s" % (module, q, o[-3000:]))
+        if (q in prove and not proved) or (q in refute and not refuted):
+            raise Inconclusive("%s: %s %s (model error in the specification, not a verdict on the code)" % (
+                module, q, "has a counterexample" if q in prove else "is not violated: vacuous check"))
         res[q] = "proved for all integers" if proved else "violated as required (the check is not vacuous)"
     return res
+
+
+def inductive(specdir, scr):
+    """The invariant IndInv (Sustained + well-formedness) of mc/ArithInductive.tla is established by create and preserved
+    by every operation and by the passing of time; each release conserves coins."""
+    return obligations(specdir, scr, "ArithInductive.tla", INDUCTIVE, VACUITY)
+
+
+LEDGER = ["BooksAfterComplete", "BooksAfterPayFee", "FloorNeverApplies", "DropsByMinFeeLocked", "NothingTakenIfUncovered"]
+LEDGER_VACUITY = ["Vacuity_WrongTake"]
+
+
+def ledger_inductive(specdir, scr):
+    """mc/LedgerInductive.tla: the locked-eFUND books balance after a completion and after a fee payment for all amounts."""
+    return obligations(specdir, scr, "LedgerInductive.tla", LEDGER, LEDGER_VACUITY)
 
 
 NS = 1000000000
